@@ -87,6 +87,14 @@ def run(tier):
             if p["ty"] in POINTS and rng.random() < 0.3:
                 p["path"], p["via"] = "constrain", "add"
         scen.append({"items": pick, "keys": i < nkeys, "max_edits": 24, "offset": rng.randrange(0, 100)})
+    # accumulators: the number of fixed / permutation commitments decides whether the canonical name order
+    # (index order) is also the lexicographic one (it is not from 11 commitments on); every order of the names
+    acc_shapes = [(3, 2, "canonical"), (11, 4, "canonical"), (10, 10, "canonical"), (3, 12, "canonical"), (4, 3, "reversed"), (12, 11, "shuffled")]
+    if tier != "quick":
+        acc_shapes += [(nf, np_, o) for nf in (1, 9, 10, 11, 25) for np_ in (1, 10, 11, 12) for o in ("canonical", "shuffled")][:24]
+    for i, (nf, np_, o) in enumerate(acc_shapes):
+        scen.append({"acc": True, "nfixed": nf, "nperm": np_, "order": o, "lhs_fixed": i % 3 == 2, "lhs_len": 1 + i % 3, "rhs_len": 1 + (i + 1) % 3,
+                     "seed": rng.randrange(1, 1000), "max_edits": 10, "offset": rng.randrange(0, 50)})
     rng.shuffle(scen)
     chunks = [scen[i::vlib.NCPU] for i in range(vlib.NCPU)]
     jobs = []
@@ -99,7 +107,16 @@ def run(tier):
     row_sets = [vlib.read_ndjson(j[2]) for j in jobs]
     pubs = [r for rows in row_sets for r in rows if r["ev"] == "Pub"]
     good, rejected, st = vlib.validate_many(row_sets, "PubIn_Trace.tla", "PubIn_Trace.cfg", "C08", "pub",
-                                            max_rejects=8, start_ev="Pub")
+                                            max_rejects=8, start_ev=("Pub", "Acc"))
+    accs = [r for rows in row_sets for r in rows if r["ev"] == "Acc"]
+    for run_rows, line, e in [x for x in rejected if x[2]["ev"] == "Acc"]:
+        clause = ("panic" if e["status"] == "panic" else "circuit_binds_other_vector" if e["status"] != "sat" or e["exposed"] != e["offchain"]
+                  else "encoder_vector_rejected" if e["status_enc"] != "sat" else "edit_accepted" if any(x["status"] == "sat" for x in e["edits"]) else "encoding_differs_from_spec")
+        rep.violation({"clause": clause, "types": ["accumulator"], "names_sorted": e["names_sorted"]},
+                      f"accumulator {clause}: nfixed={e['nfixed']} nperm={e['nperm']} order={e['order']} names_sorted={e['names_sorted']} status={e['status']} "
+                      f"enc={e['status_enc']} exposed==offchain:{e['exposed'] == e['offchain']} ({e['detail'][:100]})",
+                      {"scenario": {"acc": True, "nfixed": e["nfixed"], "nperm": e["nperm"], "order": e["order"]}})
+    rejected = [x for x in rejected if x[2]["ev"] == "Pub"]
     for run_rows, line, e in rejected:
         types = sorted(set(i["ty"] for i in e["items"]))
         clause = diagnose(e)
@@ -127,7 +144,7 @@ def run(tier):
     rep.coverage.update({
         "states": mc["distinct"], "transitions": mc["generated"],
         "traces_validated_against_impl": len(good),
-        "relations": len(pubs), "items_exposed": sum(len(e["items"]) for e in pubs),
+        "relations": len(pubs), "accumulators": len(accs), "accumulators_with_unsorted_names": sum(1 for a in accs if not a["names_sorted"]), "items_exposed": sum(len(e["items"]) for e in pubs),
         "edits": nedits, "edits_accepted": sum(1 for e in pubs for x in e["edits"] if x["status"] == "sat"),
         "relations_with_keys": sum(1 for e in pubs if e.get("keys")),
         "types": sorted(set(i["ty"] for e in pubs for i in e["items"])),
@@ -148,6 +165,17 @@ def run(tier):
 def replay(path):
     d = json.load(open(path))
     wd = vlib.workdir("C08")
+    if d["replay"].get("scenario", {}).get("acc"):
+        sp = os.path.join(wd, "replay_scen.ndjson")
+        vlib.write_ndjson(sp, [d["replay"]["scenario"]])
+        tp = os.path.join(wd, "replay_trace.ndjson")
+        vlib.run_vh(["c08", sp, tp])
+        good, rejected, _ = vlib.validate_runs(vlib.read_ndjson(tp), "PubIn_Trace.tla", "PubIn_Trace.cfg", "C08", "replay", start_ev="Acc")
+        if rejected:
+            log(f"VIOLATION property=C08 replay={path}")
+            return 1
+        log("replay: accepted (violation not reproduced)")
+        return 0
     ev = d["replay"]["event"]
     items = []
     for i in ev["items"]:
